@@ -116,6 +116,16 @@ M_BAK = "args.overwrite + '.bak'"
 
 
 @contract(YM + "write_output_document", props=["C17"])
+class MergeWriteOutputDocumentCall:
+    """The face main() uses: that the write-out happens, as one event."""
+    assumed = True
+    notes = "call-site face of the contract verified below against the body (which reads docs[0]: at least one document)"
+    requires = ["len(docs) >= 1"]
+    raises = ["OSError", "AssertionError"]
+    opts = {"callsite": True, "event": "('write', docs)"}
+
+
+@contract(YM + "write_output_document", props=["C17"])
 class MergeWriteOutputDocument:
     """With --backup the first things that happen are: look for a stale .bak, remove it if it exists, copy the
     --overwrite target to .bak -- before the output file is opened or anything is dumped.  Without --backup no
@@ -138,3 +148,75 @@ class MergeWriteOutputDocument:
         "for doc in docs": {"invariant": ["len(dumps) == iters"]},
         "for dump in dumps": {"body_ensures": ["called('copy2') == 0 and called('remove') == 0"]},
     }
+
+
+# ---------------------------------------------------------------------------------------------------
+# yaml-merge main(): a failing input is never forgotten -- nothing is written, the status is not 0
+# ---------------------------------------------------------------------------------------------------
+@contract(YM + "processcli", props=["C17"])
+class MergeProcessCli:
+    assumed = True
+    notes = "argparse: returns the parsed arguments (or exits); yaml_files is the list of input names"
+    raises = ["SystemExit"]
+    ensures = ["hasattr(result, 'overwrite') and hasattr(result, 'output') and hasattr(result, 'nostdin') and isinstance(result.nostdin, bool)",
+               "hasattr(result, 'yaml_files') and isinstance(result.yaml_files, list)"]
+    opts = {"returns": "Any", "heap_fields": {"result.yaml_files": "List[str]"}}
+
+
+@contract("yamlpath.common.parsers.Parsers.get_yaml_editor", props=["C17"])
+class GetYamlEditor:
+    assumed = True
+    notes = "builds the ruamel YAML() editor (no I/O)"
+    raises = []
+    opts = {"returns": "Any"}
+
+
+@contract("yamlpath.merger.mergerconfig.MergerConfig.__init__", props=["C17"])
+class MergerConfigInit:
+    assumed = True
+    notes = "reads the optional INI file named by --config (validated before by validateargs); no write"
+    raises = []
+
+
+@contract(YM + "validateargs", props=["C17"])
+class MergeValidateArgs:
+    assumed = True
+    notes = ("argument validation (exits with status 1 on a documented misuse); from its first check: with no YAML_FILE it returns "
+             "only when STDIN is not a terminal and --nostdin is not set (validated by the bounded cause `args-no-input`)")
+    raises = ["SystemExit"]
+    ensures = ["len(args.yaml_files) >= 1 or (not sys.stdin.isatty() and not args.nostdin)"]
+
+
+@contract("ext:sys.exit", props=["C17"])
+class SysExit:
+    assumed = True
+    notes = "sys.exit(status): recorded as an event; it is the last statement of main() (that it does not return is not used)"
+    raises = []
+    opts = {"event": "('exit', a0)"}
+
+
+@contract("ext:sys.stdin.isatty", props=["C17"])
+class StdinIsatty:
+    assumed = True
+    notes = "whether STDIN is a terminal: one answer per run"
+    raises = []
+    opts = {"returns": "bool", "pure": True}
+
+
+@contract(YM + "main", props=["C17", "C11"])
+class MergeMain:
+    """Clause (a) of C17 and the last sentence of C11 for yaml-merge: the loop over the inputs is entered with status 0
+    at every iteration (invariant), an iteration ends normally only with status 0 and leaves through `break` only with
+    a status that is not 0 -- so after an input that fails to load or to merge no later input is merged and the status
+    stays non-zero; the output document is written exactly when the final status is 0, and that status is what
+    sys.exit receives."""
+    raises = ["SystemExit", "OSError", "AssertionError"]       # (a failing write: the fault enumeration's subject)
+    loops = {"for yaml_file in args.yaml_files": {
+        "elem_assume": ["isinstance(yaml_file, str)"],           # argparse: nargs='*' of text arguments
+        "invariant": ["exit_state == 0", "iters >= 1 or not consumed_stdin"],
+        "body_ensures": ["implies(not exited, exit_state == 0)", "implies(exited, exit_state != 0)"]}}
+    ensures = [
+        "called('exit') == 1 and same(call_event('exit')[1], exit_state)",
+        "(called('write') == 1) == (exit_state == 0)",
+        "called('write') <= 1",
+    ]
